@@ -327,9 +327,10 @@ Example C13_push_subject_satisfiable :
 Proof. exact push_subject_satisfiable. Qed.
 
 (* ... lifted to HISTORIES of operations: every sequence of Push / Delete of manifests with ONE subject
-   sj (in any order, any length) run by the client ([run_ops]) against a registry without the
-   Referrers API, from any registry state: every operation succeeds, the client never believes the
-   API is there, the referrers tag ends at what applyReferrerChanges yields step by step ([ts_final])
+   sj and Predecessors(sj) (in any order, any length) run by the client ([run_ops]) against a
+   registry without the Referrers API, from any registry state: every Push/Delete succeeds, every
+   Predecessors in between lists exactly the index of that moment ([ts_results]), the client never
+   believes the API is there, the referrers tag ends at what applyReferrerChanges yields step by step ([ts_final])
    and Predecessors(sj) lists exactly that.  [ts_hist_ok] (Proofs/RemoteRefine.v) checks the LOCAL side
    conditions of each operation in the state it meets, as wf_hist does for the store: accurate,
    indexable manifest with subject sj that is new to / listed in the index (for Delete: stored); the
@@ -352,8 +353,8 @@ Theorem C13_tag_schema_history :
       ts_hist_ok H parse_mt subject_of main other user_mts limit skip_gc index_of p sj (g, n) rst st os ->
       exists g' n' rst' out,
         run_ops H parse_mt subject_of main other user_mts limit skip_gc index_of (reg * N)
-                (cexch H subject_of main other p None) (g, n) rst (map ts_op os) = ((g', n'), rst', out) /\
-        map snd out = map (fun _ => ROk) os /\ rst' <> RSSupported /\
+                (cexch H subject_of main other p None) (g, n) rst (map (ts_op sj) os) = ((g', n'), rst', out) /\
+        map snd out = ts_results H skip_gc st os /\ rst' <> RSSupported /\
         minv H parse_mt limit g' /\ index_state g' tag (ts_final H skip_gc st os) /\
         NoDup (map fst (g_tags g')) /\
         (json_ok_st index_of (ts_final H skip_gc st os) ->
@@ -368,7 +369,8 @@ Example C13_tag_schema_history_satisfiable :
   (forall c, valid_digest (sat3_H c) = true) /\
   ts_hist_ok sat3_H (fun s => Some s) sat_subject (b "app") (b "src") [] w_limit false sat3_index_of ts_profile
              sat_sj (reg0 [], 0) RSUnknown None sat3_ops /\
-  ts_final sat3_H false None sat3_ops = None.
+  ts_final sat3_H false None sat3_ops = None /\
+  ts_results sat3_H false None sat3_ops = [ROk; RDescs [sat3_d]; ROk].
 Proof. exact tag_schema_history_satisfiable. Qed.
 
 (* (JSON decoding is the parameter index_of: the theorems above ask it to invert gen_index on the two
